@@ -10,7 +10,7 @@ demos = [f for f in os.listdir(src) if f.startswith(f'demo{n}')]
 assert demos, 'no demo'
 wt = '/tmp/sv/wt'
 def sh(cmd, **kw):
-    return subprocess.run(cmd, shell=True, capture_output=True, text=True, **kw)
+    return subprocess.run(cmd, shell=True, capture_output=True, text=True, errors='replace', **kw)
 os.makedirs('/tmp/sv/tmp', exist_ok=True)
 if not os.path.isdir(wt):
     r = sh(f'git -C /repo worktree add -q --detach {wt} HEAD'); assert r.returncode == 0, r.stderr
@@ -30,8 +30,8 @@ def run_demo():
     d = demo_files[0]
     env = dict(os.environ, TMPDIR='/tmp/sv/tmp', N2_WORKTREE=wt)
     if d.endswith('.sh'):
-        r = subprocess.run(['sh', f'{out}/{d}', f'{wt}/target/debug/n2'], capture_output=True, text=True, env=env, cwd='/tmp/sv/tmp', timeout=600)
-        return r.returncode, (r.stdout + r.stderr)[-600:]
+        r = subprocess.run(['sh', f'{out}/{d}', f'{wt}/target/debug/n2'], capture_output=True, env=env, cwd='/tmp/sv/tmp', timeout=600)
+        return r.returncode, (r.stdout + r.stderr).decode('utf-8', 'replace')[-600:]
     if d.endswith('.rs'):
         # a test file for tests/: copy it in, run it, remove it
         shutil.copy(f'{out}/{d}', f'{wt}/tests/{d}')
@@ -61,7 +61,9 @@ confirmed = applied and suite_ok and rc0 == 0 and rc1 not in (0, None, 98, 99)
 # our checks against the change
 det = {}
 if confirmed:
-    r = subprocess.run(['python3', '/verif/tools/mutrun.py', '--scratch', '/root/scratch/mutseed', f'{out}/patch.diff:{",".join(checks)}'], capture_output=True, text=True)
+    r = subprocess.run(['python3', '/verif/tools/mutrun.py', '--scratch', '/root/scratch/mutseed', f'{out}/patch.diff:{",".join(checks)}'], capture_output=True, text=True, errors='replace')
+    if not r.stdout.strip() or 'FAILED' in r.stdout:
+        ran.append('mutrun output: ' + (r.stdout + r.stderr)[-400:])
     for line in r.stdout.splitlines():
         m = re.search(r' (C\d\d) rc=(\d+) viol=(\d+) (\d+)s ?(.*)', line)
         if m: det[m.group(1)] = {'rc': int(m.group(2)), 'violations': int(m.group(3)), 'seconds': int(m.group(4)), 'first': m.group(5)}
